@@ -24,7 +24,7 @@ _UNIVERSES = {}
 def universe(name):
     if name not in _UNIVERSES:
         _UNIVERSES[name] = {"U-T3": U.U_T3, "U-S2": U.U_S2, "U-S2d2": lambda: U.U_S2(2), "U-S3": U.U_S3,
-                            "U-S4r": U.U_S4r, "U-T4r": U.U_T4r}[name]()
+                            "U-S4r": U.U_S4r, "U-T4r": U.U_T4r, "U-S5r": U.U_S5r, "U-S6r": U.U_S6r}[name]()
     return _UNIVERSES[name]
 
 
@@ -310,7 +310,13 @@ def record(prop, sc, rewards, findings, known, acc, universe_name):
         bucket = [c for c in acc["violations"] if c["klass"] == kl]
         acc["n_violations"] = acc.get("n_violations", 0) + 1
         if len(bucket) < 2:
-            acc["violations"].append(mk_case(prop, sc, rewards, f, universe_name))
+            case = mk_case(prop, sc, rewards, f, universe_name)
+            if acc.get("shard") is not None:
+                # what this worker process had been given: lets the replay re-execute the games solved before this one
+                case.setdefault("config", {})["explored_in_shard"] = acc["shard"]
+                if acc["shard"].get("debug_log"):
+                    case["explanation"] = "%s [solved with the root logger at DEBUG level, the tool's -l d]" % case.get("explanation")
+            acc["violations"].append(case)
     for k in known:
         kid = k[0]
         d = acc["known"].setdefault(kid, {"count": 0, "cases": [], "what": ""})
@@ -332,6 +338,16 @@ def reward_list(policy, sc, n_inner=None):
     nonabs = [s for s in range(n) if s not in sc.absorbing]
     if policy == "ones":
         return [[1 if s in nonabs else 0 for s in range(n)]]
+    if policy == "pat3":
+        # three fixed patterns: all ones; 1,0,2,1,0,2,... by position; 0.5 / 3 alternating (float and int rewards, zero rewards inside)
+        pats = (lambda k: 1, lambda k: (k + 1) % 3, lambda k: 0.5 if k % 2 else 3)
+        out = []
+        for pat in pats:
+            r = [0] * n
+            for k, s in enumerate(nonabs):
+                r[s] = pat(k)
+            out.append(r)
+        return out
     if policy.startswith("all"):
         values = {"all01": (0, 1), "all012": (0, 1, 2), "allmixed": (0, 0.5, 7)}[policy]
         out = []
@@ -350,7 +366,57 @@ def work(shard):
     kind = shard["kind"]
     prop = shard["prop"]
     acc = _new_acc()
+    acc["shard"] = {k: (list(v) if isinstance(v, tuple) else v) for k, v in shard.items()}
+    Rn.DEBUG_LOG = bool(shard.get("debug_log"))
+    try:
+        return _work(shard, kind, prop, acc)
+    finally:
+        Rn.DEBUG_LOG = False
+
+
+def _pair_second(prop, game, first):
+    """in a process that has just solved `first`: judge `game` like any other game of the sweep"""
+    acc = _new_acc()
+    sc = J.SCache(game["players"], game["transition_list"], game["final_states"])
+    f, k = analyse_game(prop, sc, game["rewards"], acc, ())
+    if f or k:
+        record(prop, sc, game["rewards"], f, k, acc, "U-PAIR")
+        for c in acc["violations"]:
+            c.setdefault("config", {})["solved_before_in_the_same_process"] = first
+            c["kind"] = "pair"
+            c["explanation"] = "after solving %r (both modes) in the same, otherwise fresh process: %s" % (first, c.get("explanation"))
+    for key in ("samples", "shard"):
+        acc.pop(key, None)
+    return acc
+
+
+def _pair_first(prop, fam, i):
+    """forked from the worker: solve game i in both modes, then fork once per second game"""
+    tot = _new_acc()
+    first = fam[i]
+    for prune in (True, False):
+        Rn.solve(first, prune, cpu_s=STOP_CPU, confirm=False)
+    for j, game in enumerate(fam):
+        if j == i:
+            continue
+        par.merge(tot, par.in_forked_child(lambda: _pair_second(prop, game, first)))
+        tot["structures"] += 1
+    tot.pop("samples", None)
+    return tot
+
+
+def _work(shard, kind, prop, acc):
     vcap = 3 if prop == "C06" else 6
+    if kind == "pairs":
+        fam = family_slice(shard)
+        for i in range(shard["lo"], shard["hi"]):
+            par.merge(acc, par.in_forked_child(lambda: _pair_first(prop, fam, i)))
+            if acc.get("n_violations", 0) >= vcap:
+                acc["truncated"] = 1
+                break
+        acc.pop("shard", None)
+        acc["ordered_pairs"] = acc.get("structures", 0)
+        return acc
     if kind == "universe":
         Un = universe(shard["universe"])
         it = Un.structures(shard["lo"], shard["hi"], shard.get("stride", 1), shard.get("offset", 0))
@@ -388,6 +454,7 @@ def work(shard):
             if acc.get("n_violations", 0) >= vcap or acc.get("stopping_timeouts", 0) >= STOP_TIMEOUT_CAP:
                 acc["truncated"] = 1
                 break
+    acc.pop("shard", None)
     return acc
 
 
@@ -411,6 +478,8 @@ def _game_family(name, shard):
             _FAMILIES[key] = U.U_M2_games()
         elif name == "U-RB":
             _FAMILIES[key] = U.U_RB_games()
+        elif name == "U-PAIR":
+            _FAMILIES[key] = U.U_PAIR_games()
         elif name == "U-SC":
             _FAMILIES[key] = U.U_SC_games((16, 32, 50, 64, 100, 128, 256) if shard.get("all_sizes") else (256,))
         elif name in ("U-E", "U-C", "U-L", "U-R", "U-P2", "U-N", "U-W", "U-Z", "U-G", "U-K"):
@@ -439,10 +508,23 @@ def family_size(name, **kw):
 
 # -------------------------------------------------------------------------------------------------- plans
 
-def universe_shards(prop, name, jobs, rewards="ones", frac=None, seed=0, thresholds=(), stopping_only=False, core=None):
-    """frac = None: the whole universe; frac = k: the 1/k slice (contiguous block) selected by seed."""
+def universe_shards(prop, name, jobs, rewards="ones", frac=None, seed=0, thresholds=(), stopping_only=False, core=None, stride=None, debug_log=False):
+    """frac = None: the whole universe; frac = k: the 1/k slice (contiguous block) selected by seed;
+    stride = s: the arithmetic progression of indices offset, offset + s, ... with offset = 7919 * seed mod s (every state's row varies)."""
     Un = universe(name)
     lo, hi = 0, Un.size
+    if stride:
+        offset = (7919 * seed) % stride
+        shards = []
+        total = 0
+        for a, b in par.ranges(Un.size, jobs * 6):
+            first = a + ((offset - a) % stride)
+            planned = 0 if first >= b else (b - 1 - first) // stride + 1
+            total += planned
+            shards.append({"kind": "universe", "prop": prop, "universe": name, "lo": a, "hi": b, "stride": stride, "offset": offset, "planned": planned,
+                           "rewards": rewards, "thresholds": tuple(thresholds), "stopping_only": stopping_only, "debug_log": debug_log})
+        return shards, {"universe": name, "description": Un.description, "size": Un.size, "explored_structures": total,
+                        "fraction": "indices %d + k*%d (offset selected by VERIF_SEED)" % (offset, stride), "rewards": rewards, "thresholds": list(thresholds)}
     if frac:
         block = -(-Un.size // frac)
         b = seed % frac
@@ -450,10 +532,24 @@ def universe_shards(prop, name, jobs, rewards="ones", frac=None, seed=0, thresho
     shards = []
     for a, b in par.ranges(hi - lo, jobs * 6):
         shards.append({"kind": "universe", "prop": prop, "universe": name, "lo": lo + a, "hi": lo + b,
-                       "rewards": rewards, "thresholds": tuple(thresholds), "stopping_only": stopping_only})
+                       "rewards": rewards, "thresholds": tuple(thresholds), "stopping_only": stopping_only, "debug_log": debug_log})
     return shards, {"universe": name, "description": Un.description, "size": Un.size,
                     "explored_indices": [lo, hi], "fraction": "1/%d (slice %d selected by VERIF_SEED)" % (frac, seed % frac) if frac else "all",
                     "rewards": rewards, "thresholds": list(thresholds)}
+
+
+def pair_shards(prop, jobs, stride=1, offset=0):
+    """every ordered pair (G1, G2), G1 != G2, of the family U-PAIR (or of every stride-th member): G1 is solved in a freshly forked
+    process, then G2 is solved and judged there; one fork per pair, so that nothing but G1 precedes G2"""
+    kw = {"stride": stride, "offset": offset} if stride > 1 else {}
+    size = family_size("U-PAIR", **kw)
+    shards = []
+    for a, b in par.ranges(size, jobs * 3):
+        sh = {"kind": "pairs", "prop": prop, "family": "U-PAIR", "lo": a, "hi": b, "planned": (b - a) * (size - 1)}
+        sh.update(kw)
+        shards.append(sh)
+    return shards, dict({"universe": "U-PAIR ordered pairs", "size": size * (size - 1), "members": size,
+                         "fraction": "all ordered pairs" if stride == 1 else "all ordered pairs of every %d-th member" % stride}, **kw)
 
 
 def family_shards(prop, name, jobs, **kw):
@@ -478,7 +574,7 @@ def run_plan(ctx, prop, parts, rule, assumptions, kf_what=None, vacuity=None):
     if not tot:
         raise par.HarnessError("empty plan")
     truncated = bool(tot.get("truncated"))
-    planned = sum(sh["hi"] - sh["lo"] for sh in shards)
+    planned = sum(sh.get("planned", sh["hi"] - sh["lo"]) for sh in shards)
     if not truncated and tot["structures"] != planned:
         raise par.HarnessError("%s: %d structures explored, %d planned" % (prop, tot["structures"], planned))
     if vacuity and not tot.get("violations"):
@@ -507,6 +603,47 @@ def run_plan(ctx, prop, parts, rule, assumptions, kf_what=None, vacuity=None):
 
 
 def replay_game(prop, case):
+    """first the game alone (in a forked child, so that the attempt leaves no state behind in this process); if that does not reproduce
+    the violation, the whole shard in which it was found is executed again here, in order: a defect that depends on what the process had
+    solved before (state kept between games) reproduces that way"""
+    alone = par.in_forked_child(lambda: _replay_alone(prop, case))
+    if alone:
+        return alone
+    shard = case.get("config", {}).get("explored_in_shard")
+    if not shard:
+        return None
+    shard = dict(shard)
+    if "thresholds" in shard:
+        shard["thresholds"] = tuple(shard["thresholds"])
+    acc = work(shard)
+    same = [c for c in acc.get("violations", []) if c.get("klass") == case.get("klass")]
+    for c in same:
+        if _norm(c.get("input")) == _norm(case.get("input")):
+            return "after the games of the same shard were solved before it in the same process: %s" % c.get("explanation")
+    if same:
+        return "re-executing the shard in one process gives a violation of the same class on another game: %s" % same[0].get("explanation")
+    return None
+
+
+def _norm(x):
+    import json
+    return json.dumps(x, sort_keys=True, default=str)
+
+
+def _replay_alone(prop, case):
+    Rn.DEBUG_LOG = bool(((case.get("config") or {}).get("explored_in_shard") or {}).get("debug_log"))
+    try:
+        return _replay_alone_(prop, case)
+    finally:
+        Rn.DEBUG_LOG = False
+
+
+def _replay_alone_(prop, case):
+    first = (case.get("config") or {}).get("solved_before_in_the_same_process")
+    if first:
+        first = dict(first, transition_list=[[tuple(t) for t in row] for row in first["transition_list"]])
+        for prune in (True, False):
+            Rn.solve(first, prune, cpu_s=STOP_CPU, confirm=False)
     g = case["input"]
     tl = [[tuple(t) for t in row] for row in g["transition_list"]]
     sc = J.SCache(g["players"], tl, g["final_states"])
